@@ -225,14 +225,25 @@ def case_for(cid, decls, bpj, ideal=None, entities=None, c20=False, mems=None, h
                 if order is None:
                     mem_problems.append({"memory": m["name"], "ring": "no simple cycle over the write combinators", "candidates": cand})
                     continue
-                stages = []
-                for k_, i in enumerate(order):
-                    is_last = (k_ == len(order) - 1)
-                    vname = decls[m["ir"]][1] if is_last else None
-                    var = input_vars[vname] if is_last else (900 + len(cut))
-                    cut.append(f"({i}%nat, [({sg}, {var}%positive)])")
-                    stages.append(f"{{| sg_ent := {i}%nat; sg_sig := {sg}; sg_var := {var}%positive |}}")
-                rings.append((stages, fa.coq_expr(m["data"], ex.sig)))
+                def assign(order_, base):
+                    st_, cu_ = [], []
+                    for k_, i in enumerate(order_):
+                        is_last = (k_ == len(order_) - 1)
+                        var = input_vars[decls[m["ir"]][1]] if is_last else (900 + base + k_)
+                        cu_.append(f"({i}%nat, [({sg}, {var}%positive)])")
+                        st_.append(f"{{| sg_ent := {i}%nat; sg_sig := {sg}; sg_var := {var}%positive |}}")
+                    return st_, cu_
+                base = len(cut)
+                stages, cu = assign(order, base)
+                alts = []
+                if not outside and len(order) > 1:
+                    # nothing reads this cell: which stage "is" the cell cannot be observed, so the ring is
+                    # accepted if the composition starting after SOME stage is the written function
+                    for rot in range(1, len(order)):
+                        o2 = order[rot:] + order[:rot]
+                        alts.append(assign(o2, base))
+                rings.append((stages, fa.coq_expr(m["data"], ex.sig), (base, len(cu), alts)))
+                cut.extend(cu)
         defs += f"Definition cut_{cid} : cut_t := [{'; '.join(cut)}].\n"
         parts = []
         if cells:
@@ -241,15 +252,21 @@ def case_for(cid, decls, bpj, ideal=None, entities=None, c20=False, mems=None, h
         if latches:
             defs += f"Definition latches_{cid} : list latch_req := [{'; '.join(latches)}].\n"
             parts.append(f"ok (check_latches bp_{cid} cut_{cid} {n + 2}%nat ds_{cid} qs_{cid} rs_{cid} latches_{cid})")
-        for k_, (stages, fx) in enumerate(rings):
+        for k_, (stages, fx, (base, ln, alts)) in enumerate(rings):
             defs += f"Definition ring_{cid}_{k_} : list stage := [{'; '.join(stages)}].\n"
-            parts.append(f"ok (check_ring bp_{cid} cut_{cid} {n + 2}%nat ds_{cid} qs_{cid} rs_{cid} ring_{cid}_{k_} {fx})")
+            disj = [f"ok (check_ring bp_{cid} cut_{cid} {n + 2}%nat ds_{cid} qs_{cid} rs_{cid} ring_{cid}_{k_} {fx})"]
+            for a_, (st_, cu_) in enumerate(alts):
+                cut_a = cut[:base] + cu_ + cut[base + ln:]
+                defs += f"Definition cut_{cid}_{k_}_{a_} : cut_t := [{'; '.join(cut_a)}].\n"
+                defs += f"Definition ring_{cid}_{k_}_{a_} : list stage := [{'; '.join(st_)}].\n"
+                disj.append(f"ok (check_ring bp_{cid} cut_{cid}_{k_}_{a_} {n + 2}%nat ds_{cid} qs_{cid} rs_{cid} ring_{cid}_{k_}_{a_} {fx})")
+            parts.append("(" + " || ".join(disj) + ")" if len(disj) > 1 else disj[0])
         if parts:
             expr = " && ".join(parts)
         meta["mem_problems"] = mem_problems
         meta["cells"] = len(cells)
         meta["latches"] = len(latches)
-        meta["rings"] = [len(s) for s, _ in rings]
+        meta["rings"] = [len(r_[0]) for r_ in rings]
         meta["latch_defs"] = latches
     return defs, expr, meta
 
